@@ -551,6 +551,37 @@ fn families(l: &Lang, thorough: bool) -> Acc {
             l.examine(&mut acc, &c, "family: keywords and function names", true);
         }
     }
+    // syntax inside strings: string contents that look like query syntax, in every place a string can stand
+    {
+        let frags = [
+            "..", ".. ", " ..", "a.. b", "a..b", ". .", "[", "]", "[0]", "['a']", "?", "?@", "*", "@", "$", "$.a", "&&", "||", "==", "!=", "<", ",", ":", "1:2", "(", ")", "()", "!", "!@.a", "a,b", " ", "  ", " a", "a ",
+            "length(@)", "true", "null", "1", "-1", "1e2", "\\", "\\\\", "/", "#", "%", "{", "}", "\u{7f}", "\u{80}", "\u{a0}", "\u{2028}",
+        ];
+        for f in frags {
+            let sq = render::quote_single(f);
+            let dq = render::quote_double(f);
+            for lit in [&sq, &dq] {
+                for c in [
+                    format!("$[{}]", lit),
+                    format!("$..[{}]", lit),
+                    format!("$[0,{}]", lit),
+                    format!("$..[0,{},*]", lit),
+                    format!("$.a[{}].b", lit),
+                    format!("$[?@.a=={}]", lit),
+                    format!("$..[?@.a=={}]", lit),
+                    format!("$..[?{}!=@[{}]]", lit, lit),
+                    format!("$[?search(@.a,{})]", lit),
+                    format!("$..[?match(@[{}],{})]", lit, lit),
+                    format!("$[?@[{}]]", lit),
+                    format!("$..[?@..[{}]]", lit),
+                    format!("$[?length({})==1]", lit),
+                    format!("$..a[?@.b=={}&&@..c]", lit),
+                ] {
+                    l.examine(&mut acc, &c, "family: query syntax inside string literals", true);
+                }
+            }
+        }
+    }
     // length ladder: names and literals of growing length built from 1-, 2-, 3- and 4-byte characters, with 0..3
     // bytes of ASCII padding, in accepting and in rejecting contexts (error paths that echo the offending text)
     {
@@ -616,7 +647,25 @@ fn families(l: &Lang, thorough: bool) -> Acc {
                 }
             }
         }
-        for call in level1.iter().chain(level2.iter()) {
+        // surplus and missing arguments: every call of level 1 with one more argument of every kind (valid or not),
+        // appended or prepended, and every call with its last argument removed
+        let mut arity: Vec<String> = vec![];
+        for call in &level1 {
+            let inner = &call[..call.len() - 1];
+            for extra in simple.iter().chain(level1.iter().take(60)) {
+                arity.push(format!("{},{})", inner, extra));
+            }
+            if let Some(open) = call.find('(') {
+                for extra in ["1", "@.a", "@.*", "length(@.*)", "count(1)", "@[9007199254740992]"] {
+                    arity.push(format!("{}({},{}", &call[..open], extra, &call[open + 1..]));
+                }
+            }
+        }
+        for f in fns {
+            arity.push(format!("{}()", f));
+            arity.push(format!("{}(@.a,@.b,@.c)", f));
+        }
+        for call in level1.iter().chain(level2.iter()).chain(arity.iter()) {
             for c in [format!("$[?{}]", call), format!("$[?!{}]", call), format!("$[?{}==1]", call), format!("$[?true!={}]", call), format!("$[?({})||@.z]", call), format!("$[?{}=={}]", call, call)] {
                 l.examine(&mut acc, &c, "family: function nestings", true);
             }
